@@ -262,6 +262,34 @@ def concrete(tags, c, i, r):
     raise ValueError(k)
 
 
+def gen_seg_long(seed, npipes, cuts_per, tags):
+    """Long pipelines (hundreds of complete requests arriving in one read) with their segmented twins: cuts at request
+    boundaries every 50 / 100 requests, halves, thirds, and random cuts anywhere."""
+    rng = random.Random("seglong/%s" % seed)
+    slots = ["A", "A2", "B", "C"]
+    out = []
+    for p in range(npipes):
+        n = rng.choice([140, 200, 300, 450])
+        reqs = []
+        for _ in range(n):
+            k = rng.choice(["get", "set", "ping", "ping", "get"])
+            reqs.append({"k": k, "slots": [rng.choice(slots)], "dups": [-1]} if k != "ping" else {"k": k, "slots": [], "dups": []})
+        blobs = [concrete(tags, "c1", i + 1, r) for i, r in enumerate(reqs)]
+        ends, pos = [], 0
+        for b in blobs:
+            pos += len(b)
+            ends.append(pos)
+        L = pos
+        variants = [[], [ends[n // 2 - 1]], [ends[n // 3 - 1], ends[2 * n // 3 - 1]], ends[49:-1:50], ends[99:-1:100],
+                    [ends[127]], [ends[128]], [ends[n // 2 - 1] + 3]]
+        while len(variants) <= cuts_per:
+            variants.append(sorted(rng.sample(range(1, L), rng.choice([1, 2, 4, 7]))))
+        for v, cuts in enumerate(variants[:cuts_per + 1]):
+            steps = [{"stim": [{"op": "send", "c": "c1", "reqs": reqs, "cuts": cuts}]}, {"stim": [], "settle": True}] + drain_steps(3, n)
+            out.append(_norm({"id": "seglong-%s-%d-%d" % (seed, p, v), "role": "base" if v == 0 else "seg", "steps": json.loads(json.dumps(steps))}))
+    return out
+
+
 def gen_seg(seed, npipes, cuts_per, tags):
     """Groups of 1 + cuts_per scenarios: the unsegmented pipeline (role base) and segmented twins (role seg)."""
     rng = random.Random("seg/%s" % seed)
